@@ -1,0 +1,23 @@
+//go:build verif
+
+// Verification hooks (build tag verif) used by the runtime monitors under /verif.
+
+package cache
+
+import (
+	"time"
+
+	"istio.io/istio/pkg/queue"
+	"istio.io/istio/pkg/security"
+)
+
+// RotateTimeForVerif exposes the rotation delay computation.
+func RotateTimeForVerif(item security.SecretItem, graceRatio, graceRatioJitter float64) time.Duration {
+	return rotateTime(item, graceRatio, graceRatioJitter)
+}
+
+// SetDelayedQueueForVerif replaces the rotation queue; call before any secret is generated.
+// The original queue keeps running (idle) until Close.
+func (sc *SecretManagerClient) SetDelayedQueueForVerif(q queue.Delayed) {
+	sc.queue = q
+}
